@@ -97,6 +97,40 @@ prop("C17", "Unbounded proof of the sender-side eligibility rules that are code 
       B+"startSend": ["changed-files-dropped", "unchanged-files-kept"],
       B+"startRetry": None,
       B+"recover$1": ["polls-unchanged-files-only", "resumes-unchanged-files-only"]})
+H = "(*http.Server)."
+prop("C13", "Unbounded proof of the framing of the payload wire format: the header carries one descriptor per part, in order, with exactly the part's name, rename, predecessor, hash, time, size, send size and byte range (loop invariant); the encoder reads at most what is left of the current part from the part's file opened at the part's offset and moves to the next part exactly at its end, in header order; the part reader never yields a byte beyond the announced length and reports EOF exactly there; the decoder hands out part readers over the shared stream in descriptor order; the data route pairs the k-th reader with the k-th descriptor, refuses an index beyond the header and a malformed header length",
+     "gzip, JSON encoding and HTTP transport are libraries (trusted); path-separator re-joining is a library call; truncated bodies are covered as 'reader returns fewer bytes => error => 206'",
+     {"(*payload.Bin).EncodeHeader": None, "(*payload.Encoder).startNextPart": None, "(*payload.Encoder).Read": None,
+      "(*payload.PartDecoder).Read": None, "(*payload.Decoder).Next": None, "(*payload.Decoder).GetParts": None,
+      H+"routeData": ["bad-header-length-is-refused", "prepares-the-announced-parts", "index-in-range", "part-k-with-reader-k", "complete-only-at-the-end", "partial-answer-after-a-failed-part", "partcount-is-receive-count"]})
+prop("C14", "Unbounded proof of the path discipline: part names and rename targets taken from a request are refused unless they are local paths (loop invariant over the decoded descriptors, against the uninterpreted predicate local = filepath.IsLocal); the source names '.', '..' and '' never reach the gatekeeper factory; every file-system effect of the stage takes Join(root, announced name) (+ a fixed extension); the static route touches files only through the rooted handle os.Root, only after both sanitisers accepted, and never through path-based os calls",
+     "semantics of filepath.Join / filepath.IsLocal / os.Root (trusted); sanitizeRelativePath's own loop over segments is trusted (covered by the existing tests only); the composition decoder -> route -> stage is a paper step",
+     {"payload.NewDecoder": None, H+"getGateKeeper": None, H+"routeFile": None, "http.sanitizePathSegment": None, "http.rootRelativePath": None,
+      H+"routeData": ["part-k-with-reader-k", "prepares-the-announced-parts"],
+      S+"Receive": ["opens-the-partial", "removes-only-own-files", "record-before-rename"],
+      S+"Prepare": None,
+      S+"putFileAway": ["moves-wait-body"],
+      S+"partReceived": ["reads-own-companion", "same-version-only"],
+      S+"cleanStrays": ["only-part-files"]})
+prop("C15", "Unbounded proof that a request reaches a route only after the source has a gatekeeper, the gatekeeper is ready and the validator accepted source and key (with the matching refusal codes and nothing written before); every route that reaches a gatekeeper or the serve directory is registered behind that guard; the standard validator accepts exactly listed sources (matching the name pattern) and listed keys (index search proved with a loop invariant); recovery keeps the gatekeeper not ready for its whole duration",
+     "the race between 'go stager.Recover()' at start-up and the first request (schedule-dependent, A1); the Postgres validator; that stage.New has no file-system effect is not yet under contract",
+     {H+"handleValidate$1": None, H+"Serve": None, "main.strToIndex": None, "(*main.serverApp).standardValidator": None,
+      S+"Recover": ["not-ready-for-duration"], S+"setCanReceive": None, S+"Ready": None})
+L = "(*log.FileIO)."
+prop("C18", "Unbounded proof of the transfer-log look-up: a day file answers yes only for a line that starts with exactly the name followed by the separator and carries ':hash:' behind it, and such a line always answers yes (string theory); the look-up asks for exactly name and hash; the window is walked in one-day steps from start until the cursor has passed the stop, forward and backward, and an empty window opens nothing; the records are written name-first with ':' separators; the log file is synced when required",
+     "local-time / DST day arithmetic (24 h days assumed); concurrent writers (single writer goroutine, A1); Parse splits on ':' so names containing the separator shift the fields (not under contract: strings.Split is not modelled)",
+     {"(*log.rollingFile).each": None, "(*log.rollingFile).search$1": None, L+"wasWritten": None, L+"WasReceived": None, L+"WasSent": None, L+"Received": None, L+"Sent": None, "(*log.rollingFile).log": None})
+# C02: cache and verdict codes; C17: store
+P["C02"]["functions"] += ["(*cache.cacheFile).IsDone", "(*cache.JSON).Get", "(*cache.JSON).add", "(*cache.JSON).Done", "(*cache.JSON).Remove", "(*http.confirmed).NotFound", "(*http.confirmed).Waiting", "(*http.confirmed).Failed", "(*http.confirmed).Received", H+"routeValidate"]
+P["C17"]["functions"] += ["(*store.Local).shouldIgnore", "(*store.Local).handleNode", "(*store.Local).Scan", "(*cache.JSON).add"]
+P["C06"]["functions"] += ["fileutil.writeJSON", "fileutil.Move", "(*log.rollingFile).log"]
+P["C06"]["labels"]["(*log.rollingFile).log"] = ["sync-when-required", "rotated-first"]
+P["C07"]["functions"] += ["fileutil.writeJSON"]
+P["C01"]["functions"] += ["fileutil.Move"]
+P["C08"]["functions"] += [H+"routeData", H+"routeDataRecovery"]
+P["C08"]["labels"][H+"routeData"] = ["partial-answer-after-a-failed-part", "partcount-is-receive-count", "complete-only-at-the-end"]
+P["C09"]["functions"] += ["(*payload.PartDecoder).Read"]
+
 # additions to the receiver-side properties
 P["C01"]["functions"] += [S+"Recover", S+"Recover$2"]
 P["C01"]["labels"][S+"Recover"] = ["recovered-wait-bodies-are-validated", "no-direct-finalize", "no-direct-delivery", "only-complete-partials-are-renamed"]
